@@ -18,8 +18,11 @@ OrderMinus1(c) == CASE c = "p256" -> OrderMinus1_p256 [] c = "p384" -> OrderMinu
 Curves == {"p256", "p384", "p521"}
 \* a value of exactly k bytes below the order
 Val(c, k) == IF k = 0 THEN <<>> ELSE [i \in 1..k |-> IF i = 1 THEN (IF c = "p521" /\ k = 66 THEN 1 ELSE 200) ELSE IF i = 2 THEN 0 ELSE (i * 5) % 256]
+\* the same with a first byte below 128 (no sign-padding byte in DER)
+ValLow(c, k) == [Val(c, k) EXCEPT ![1] = IF c = "p521" /\ k = 66 THEN 1 ELSE 100]
 Classes(c) == LET n == OrderBytes(c) IN
-  { Val(c, n), Val(c, n - 1), Val(c, n - 2), Val(c, 2), <<1>>, OrderMinus1(c), Val(c, n \div 2) }
+  { Val(c, n), Val(c, n - 1), Val(c, n - 2), Val(c, n - 3), Val(c, n - 4), Val(c, n - 6), Val(c, 2), <<1>>, OrderMinus1(c), Val(c, n \div 2),
+    ValLow(c, n), ValLow(c, n - 1), ValLow(c, n - 2), ValLow(c, n - 3), ValLow(c, n - 5), ValLow(c, n - 6) }
 BadR(c) == LET n == OrderBytes(c) IN { <<>>, [i \in 1..(n + 1) |-> 200], [i \in 1..(2 * n) |-> 7] }
 
 VARIABLE st
